@@ -138,7 +138,8 @@ def judge_monotone(area, qe, thr, ang):
 # ---- real kernel ----------------------------------------------------------------------------
 
 def kernel_events(tier):
-    betas = [math.radians(b) for b in ([1.0, 5.0, 15.0, 30.0, 42.0] if tier == "quick" else [0.5, 1.0, 3.0, 5.0, 10.0, 15.0, 25.0, 30.0, 42.0])]
+    # (angles below 1 deg are treated as 1 deg by the kernel: the altitude scaling must use the clamped angle too)
+    betas = [math.radians(b) for b in ([0.0, 0.5, 1.0, 5.0, 15.0, 30.0, 42.0] if tier == "quick" else [0.0, 0.3, 0.5, 0.99, 1.0, 3.0, 5.0, 10.0, 15.0, 25.0, 30.0, 42.0])]
     alts = [0.0, 2.0, 8.0, 15.0, 20.0] if tier == "quick" else [0.0, 0.5, 2.0, 5.0, 8.0, 11.0, 15.0, 20.0]
     Es = [1e-3, 0.1, 1.0, 50.0] if tier == "quick" else [1e-4, 1e-3, 0.1, 1.0, 50.0, 1e3]
     return list(itertools.product(betas, alts, Es))
